@@ -26,3 +26,19 @@ func VerifC13_Retries() {
 	s.orderingAsserts()
 	vReach("ran")
 }
+
+// ErrorSkipParents in graphs of 4 tasks (diamonds, shared and separate
+// dependents): whatever the completion order, no task above a skipping task is
+// entered, and no task is entered before its dependencies succeeded.
+func VerifC13_SkipDiamonds() {
+	vNativeReset()
+	s := newScenario(scenarioOpts{n: 4, outcomes: oNil})
+	s.outcome[0][0] = vInt("skip0", 0, 1) * oSkip // nil or skip
+	s.outcome[1][0] = vInt("skip1", 0, 1) * oSkip
+	s.build()
+	err := s.run()
+	vObserve("failed", err != nil)
+	s.orderingAsserts()
+	vAssert("skips-alone-do-not-fail-the-run", err == nil)
+	vReach("ran")
+}
